@@ -5,3 +5,8 @@ import Ark.Props.C03
 #print axioms Ark.Props.C03.exclusive_matches_exactly
 #print axioms Ark.Props.C03.relation_lookup_complete
 #print axioms Ark.Props.C03.relation_lookup_all
+#print axioms Ark.Props.C03.drain_visits_selected_rows
+#print axioms Ark.Props.C03.count_eq_visits
+#print axioms Ark.Props.C03.entityAt_eq_visit
+#print axioms Ark.Props.C03.visits_nodup
+#print axioms Ark.Props.C03.drain_closes_and_unlocks
